@@ -90,7 +90,9 @@ fn lenient_case(em: &mut Emitter, mode: u8, outer_indef: bool, wrap2: u8, member
     use bcder::decode::{Constructed, IntoSource, Content};
     use bcder::Tag;
     // member j may be replaced by a malformed one, so that skipping and capturing it fail as well
-    const BAD: [&[u8]; 4] = [&[0x30, 0x02, 0x02, 0x05], &[0x24, 0x04, 0x04, 0x05, 0x61, 0x62], &[0x30, 0x04, 0x30, 0x02, 0x02, 0x05], &[0x30, 0x05, 0x02, 0x01, 0x07, 0x01, 0x03]];
+    const BAD: [&[u8]; 6] = [&[0x30, 0x02, 0x02, 0x05], &[0x24, 0x04, 0x04, 0x05, 0x61, 0x62], &[0x30, 0x04, 0x30, 0x02, 0x02, 0x05], &[0x30, 0x05, 0x02, 0x01, 0x07, 0x01, 0x03],
+        // the failure happens inside an indefinite-length value inside the definite-length member (BER only)
+        &[0x30, 0x04, 0x30, 0x80, 0x04, 0x05], &[0x30, 0x06, 0x30, 0x80, 0x30, 0x02, 0x02, 0x05]];
     let body: Vec<u8> = members.iter().enumerate().flat_map(|(i, m)| if i == j && bad > 0 { BAD[(bad - 1) as usize].to_vec() } else { encode_forest(std::slice::from_ref(m), mode, &mut None) }).collect();
     let seq = |indef: bool, inner: &[u8]| -> Vec<u8> { let mut v = vec![0x30u8]; if indef { v.push(0x80); v.extend_from_slice(inner); v.extend_from_slice(&[0, 0]); } else { v.extend(ref_len_octets(inner.len())); v.extend_from_slice(inner); } v };
     let mut data = seq(outer_indef, &body);
@@ -195,7 +197,7 @@ pub fn run(em: &mut Emitter, rng: &mut Rng, thorough: bool) {
             if jc == 3 && jn == 0x1f_fffe { continue }
             lenient_case(em, mode, outer_indef, wrap2, &members, j, how, 0, 0);
         }
-        if mode != 1 { let bad = 1 + rng.below(4) as u8; for how in 0..10u8 { lenient_case(em, mode, outer_indef, wrap2, &members, j, how, rng.below(3) as usize, bad); } }
+        if mode != 1 { let bad = 1 + rng.below(if mode == 0 { 6 } else { 4 }) as u8; for how in 0..10u8 { lenient_case(em, mode, outer_indef, wrap2, &members, j, how, rng.below(3) as usize, bad); } }
     }
     let ctxs = [Ctx::Top, Ctx::Definite, Ctx::Indefinite];
     // exhaustive short scripts over a small alphabet on a 3-octet value followed by a sibling
